@@ -147,9 +147,9 @@ def audit(pid: str, extra_modules=()):
     with LakeLock():
         rc, out = _run(["lake", "env", "lean", str(af)], cwd=LEAN, timeout=1200)
     axioms = {}
-    for m in re.finditer(r"'([^']+)' depends on axioms: \[([^\]]*)\]", out):
+    for m in re.finditer(r"'(\S+)' depends on axioms: \[([^\]]*)\]", out):
         axioms[m.group(1)] = [a.strip() for a in m.group(2).replace("\n", " ").split(",") if a.strip()]
-    for m in re.finditer(r"'([^']+)' does not depend on any axioms", out):
+    for m in re.finditer(r"'(\S+)' does not depend on any axioms", out):
         axioms[m.group(1)] = []
     for n in names:
         ax = axioms.get(n)
